@@ -391,7 +391,13 @@ func (p principal) marshal(v int) ([]byte, error) {
 	if v == 1 && isNativeEndianLittle() {
 		endian = binary.LittleEndian
 	}
-	endian.PutUint16(b[0:], uint16(p.NumComponents))
+	// The component count is derived from the components actually written. In version 1 the
+	// count includes the realm (parsePrincipal subtracts it again).
+	nc := len(p.Components)
+	if v == 1 {
+		nc++
+	}
+	endian.PutUint16(b[0:], uint16(nc))
 	realm, err := marshalString(p.Realm, v)
 	if err != nil {
 		return b, err
